@@ -21,8 +21,9 @@ type Run struct {
 }
 
 type CallbackSpec struct {
-	Fn   string `json:"fn"`
-	Args []any  `json:"args"`
+	Fn     string `json:"fn"`
+	Args   []any  `json:"args"`
+	Shared string `json:"shared,omitempty"` // name of a JavaScript object shared by (and mutated between) calls
 }
 
 type Job struct {
